@@ -254,6 +254,9 @@ class Evaluator:
         d = getattr(base, "__dict__", None)
         if isinstance(d, dict) and n.attr in d and not n.attr.startswith("__"):
             return d[n.attr]  # plain record supplied by the rule's sample domain
+        if getattr(type(base), "_fold_ok", False) and not n.attr.startswith("__") and n.attr in vars(type(base)) \
+                and not callable(vars(type(base))[n.attr]):
+            return vars(type(base))[n.attr]  # class-level data attribute of a sample-domain class
         raise Unfoldable(f"attribute read {ast.unparse(n)}")
 
     def _Subscript(self, n):
@@ -492,7 +495,10 @@ class Evaluator:
             recv = self.ev(n.func.value)
             a = n.func.attr
             if isinstance(recv, Obj) and callable(recv.__dict__.get(a)):
-                return recv.__dict__[a](*args, **kwargs)
+                try:
+                    return recv.__dict__[a](*args, **kwargs)
+                except (ValueError, KeyError, IndexError, AttributeError, ZeroDivisionError, FileNotFoundError) as e:
+                    raise Raised(type(e).__name__)  # a stub of the sample domain signals what the real collaborator would raise
             if getattr(type(recv), "_fold_ok", False) and callable(getattr(recv, a, None)):
                 return getattr(recv, a)(*args, **kwargs)  # method of a sample-domain class supplied by the rule
             model = getattr(type(recv), "_model", None)
@@ -640,8 +646,8 @@ class Evaluator:
             raise _Continue()
         elif isinstance(st, ast.Break):
             raise _Break()
-        elif isinstance(st, ast.Pass):
-            pass
+        elif isinstance(st, (ast.Pass, ast.Import, ast.ImportFrom)):
+            pass  # imported names are resolved through the table of supplied callables when they are used
         elif isinstance(st, ast.Expr) and isinstance(st.value, ast.Yield):
             self.yields.append(self.ev(st.value.value) if st.value.value is not None else None)
         elif isinstance(st, ast.Expr) and isinstance(st.value, ast.YieldFrom):
